@@ -4,13 +4,13 @@ import json, os
 VERIF = os.path.dirname(os.path.dirname(os.path.dirname(os.path.abspath(__file__))))
 
 CLAIMS = {
- "C01": ("refusal gate dominates every FileDesc construction (MPT+WMC); per-scheme capacity constants fit the wire field; partition call agreement; every metadata field flows object -> FDT File -> writer metadata (slices)",
-         "E2 structural rules over MIR: must-pass-through, who-may-call, dataflow slices, arm constants vs RFC widths",
+ "C01": ("refusal gate dominates every FileDesc construction (MPT+WMC); per-scheme capacity constants fit the wire field; partition call agreement and the RFC 5052 closed forms of block_partitioning / block_length (polynomial normal forms); every metadata field flows object -> FDT File -> writer metadata; decoding parameters (cenc, oti, transfer length) written only from their packet / FDT source",
+         "E2 structural rules over MIR: must-pass-through, who-may-call, dataflow slices, arm constants vs RFC widths; polynomial normal forms of the partition formulas",
          "byte-exact round trip, FEC/inflate/XML library behaviour and exactly-one-copy are NOT decided"),
  "C02": ("close-object flag accounts for every interleaved block; symbol consumed before the flag acts; duplicates neither overwrite nor count; decode thresholds over all orderings",
          "E2 dependence/dominance rules + E3 decision tables over comparison orderings",
          "delivery for every loss pattern (liveness, MDS property of the RS library) is NOT decided"),
- "C03": ("MD5 gate before complete(); strict SBN order; first copy wins; at most one terminal writer call over all entry orders (typestate); stale packets ignored",
+ "C03": ("MD5 gate before complete(); strict SBN order; first copy wins; at most one terminal writer call over all entry orders (typestate); stale packets ignored; decoding parameters only from their packet / FDT source",
          "E2 dominance rules + E3 interprocedural typestate exploration",
          "equality of written bytes with the sender's bytes over all histories is NOT decided"),
  "C04": ("exhaustive inventory of panic-capable sites, loops, allocations and third-party calls reachable from the receiver entry points; each discharged by the range interpreter, reviewed in a table with re-checked guards, or a known finding",
@@ -19,49 +19,49 @@ CLAIMS = {
  "C05": ("filesystem sinks only in ObjectWriterFS::{open,error}; every sink path is dest.join(rel) behind a confinement check on rel; only created files are deleted",
          "E2 who-may-call + taint/sanitiser/sink dominance with a decision table over path::Component variants",
          "semantics of url::Url::path and symlinks inside the destination are NOT decided"),
- "C06": ("writer layout = reader layout = RFC layout bit by bit for EXT_FTI and FEC payload ids of 5 schemes, EXT_FDT, EXT_CENC; inc_hdr_len bookkeeping; no lossy narrow shift; flag/version constants",
-         "E5 bit-provenance interpreter vs RFC tables + E4 ranges",
+ "C06": ("writer layout = reader layout = RFC layout bit by bit for EXT_FTI and FEC payload ids of 5 schemes, EXT_FDT, EXT_CENC; first LCT word flags at their RFC 5651 positions and CCI/TSI/TOI byte counts = 4(C+1) / 4S+2H / 4O+2H with one shared H; inc_hdr_len bookkeeping; no lossy narrow shift; flag/version constants",
+         "E5 bit-provenance interpreter vs RFC tables + affine length forms + E4 ranges",
          "value-dependent CCI/TSI/TOI widths, NTP arithmetic, RS GF(2^m) payload id are NOT decided"),
- "C07": ("all callers of block_partitioning agree on argument roles and widths; RaptorQ/Raptor readers rebuild B from the F, Z, T they return; Z written from the same partition call",
-         "E2 argument provenance with expanded expression trees",
+ "C07": ("all callers of block_partitioning / block_length agree on argument roles and widths; RaptorQ/Raptor readers rebuild B from the F, Z, T they return (nested ceiling division); Z written from the same partition call; block_partitioning / block_length return the RFC 5052 closed forms (polynomial normal forms with div_ceil/div_floor atoms)",
+         "E2 argument provenance with expanded expression trees + polynomial normal forms",
          "equality with RFC 5052 for all (L,E,B) is a numerical identity and NOT decided"),
- "C08": ("close-object flag sources (all blocks drained / forced close / empty object) and the stopped latch; close-session constant; shard cursor and block counter only move by +1",
+ "C08": ("close-object flag sources (all blocks drained and nothing left to open / forced close / empty object) and the stopped latch; close-session constant; shard cursor and block counter only move by +1; stream read errors other than Interrupted end the transfer with an error, Interrupted retries",
          "E2 dependence, dominance and who-writes-field rules",
          "payload slices and repair symbol counts are NOT decided"),
  "C09": ("who-may-call for the five ObjectWriter methods; typestate of the writer session over all orders and repetitions of the ObjectReceiver entry points followed by Drop; complete gated by is_completed+MD5 or zero length; no leak primitives",
          "E3 finite-domain interprocedural typestate interpreter with method summaries + E2 who-may-call",
          "'concatenated writes are a prefix of the content' (bytes) is NOT decided; user writers cannot re-enter the receiver"),
- "C10": ("instance id written only in new/publish, new value in [0,2^20-1], each queued instance followed by the increment and carrying the pre-increment id; metadata flow; Expires depends on now and duration; publish marks all files; list source by publish mode",
-         "E2 who-writes-field/pairing/dependence + E4 range of the assigned id",
+ "C10": ("instance id written only in new/publish, new value in [0,2^20-1], each queued instance followed by the increment and carrying the pre-increment id; metadata flow; Expires = ntp(now of this publication) + duration, last_publish = Some(now) only in publish; publish marks all files; list source by publish mode; receiver-side extraction: File OTI before instance OTI, Transfer-Length before Content-Length, sibling get_oti mappings agree",
+         "E2 who-writes-field/pairing/dependence/fallback-order rules + E4 range of the assigned id",
          "XML well-formedness/escaping, set equality over histories and supersede timing are NOT decided"),
- "C11": ("FDT session polled first; object sessions emit only past the FDT-pending gate evaluated after get_next; FullFDT eligibility requires published; set_published only in publish; auto-publish pairing",
+ "C11": ("FDT session polled first; object sessions emit only past the FDT-pending gate evaluated after get_next; FullFDT eligibility requires published; set_published only in publish and only after the instance is queued; auto-publish pairing",
          "E2 must-pass-through under assumptions, dominance, who-may-call",
          "interleavings as such are NOT decided (mechanism's necessary conditions only)"),
- "C12": ("transfer counters written only by done(+1)/init(reset under carousel); expiry and last-transfer predicates over all orderings; requeue-or-forget decision table; loop inventory on the read path",
+ "C12": ("transfer counters written only by done(+1)/init(reset under carousel); expiry, last-transfer and can-be-stopped predicates over all orderings (never-reset counter); requeue-or-forget decision table incl. membership test; loop inventory on the read path",
          "E2 who-writes-field + E3 decision tables + loop classifier",
          "exact wire counts over histories and general termination are NOT decided"),
- "C13": ("ordered map iterated forwards with first Some winning; per-queue session count max(1, multiplex_files) fixed at construction; FIFO queue mutators; interleave window guard",
+ "C13": ("ordered map iterated forwards with first Some winning; per-queue session count max(1, multiplex_files) fixed at construction; FIFO queue mutators; interleave window guard; every object session yields while an FDT is pending (a yielding higher-priority session is not overtaken)",
          "E2 type facts, who-may-call over collection mutators, dominance",
          "fairness / readiness over time are NOT decided"),
- "C14": ("never-early gates of should_transfer_now over all orderings; reference time per carousel mode; pacing gate dominates encoder.read and tick pairing; tick value; non-zero divisor for empty objects",
+ "C14": ("never-early gates of should_transfer_now over all orderings; reference time per carousel mode; last-transfer timestamps written only at transfer start/end, explicit reset only when not transferring; pacing gate dominates encoder.read and tick pairing; tick value; non-zero divisor for empty objects",
          "E3 decision tables + E2 must-pass-through/pairing/argument rules",
          "pacing accuracy ('first poll at or after due time') is NOT decided"),
- "C15": ("each width arm within its width; cursor never 0 at exits; uniqueness mechanism; ownership witnesses (compile_fail / compile-pass); TOI provenance to wire and FDT",
-         "E4 ranges per arm and at exits + E2 + E6 compile-fail witnesses built against the tree",
+ "C15": ("each width arm within its width; cursor never 0 at exits; uniqueness mechanism; ownership witnesses (compile_fail / compile-pass); TOI provenance to wire and FDT; O/H flags and TOI byte count in the LCT header",
+         "E4 ranges per arm and at exits + E2 + E5 (LCT first word) + E6 compile-fail witnesses built against the tree",
          "uniqueness over concrete histories only through the mechanism"),
- "C16": ("state Completed implies complete() delivered or ObjectAlreadyReceived (typestate over all entry orders); replay pairings; registry insert only under Completed",
+ "C16": ("state Completed implies complete() delivered or ObjectAlreadyReceived (typestate over all entry orders); replay pairings incl. flush of blocks decoded before the FDT; registry insert only under Completed; in-band Z / B from the same partition argument roles as the receiver",
          "E3 typestate + E2 pairing/dominance",
          "delivery within two cycles for every join offset (liveness) is NOT decided"),
- "C17": ("inventory of growth calls on receiver registries each with a bound; cache counter maintained; timeout cleanup covers every registry and state",
+ "C17": ("inventory of growth calls on receiver registries each with a bound; cache counter grows by at least the cached datagram; timeout clock refreshed only by packets of the object; timeout cleanup covers every registry and state",
          "E2 who-may-call over growth methods + dominance/pairing + predicate inspection",
          "live heap bytes are NOT decided"),
- "C18": ("routing key provenance and derived Hash/Eq; filter gate before dispatch; open only on creation, every removal paired with close for the removed keys with a single evaluation of clock-reading predicates; sibling refcount shapes",
+ "C18": ("routing key provenance and derived Hash/Eq; filter gate before dispatch; open only on creation, every removal paired with close for the removed keys and close only for a session that existed, single evaluation of clock-reading predicates; sibling refcount shapes",
          "E2 argument/type rules, must-pass-through under assumption, pairing, E3 decision table of is_valid",
          "isolation as behaviour and refcount arithmetic over sequences are NOT decided"),
  "C19": ("is_expired over all orderings; Expired only under enable_expired_check from Complete; both attach_fdt sites behind update_expired_state + Complete; skew sign consistency",
          "E3 decision table + E2 dominance/must-pass-through/argument rules",
          "outcomes over all clock offsets (time arithmetic) are NOT decided"),
- "C20": ("stream block buffer filled by a loop; every transfer rewinds and builds a fresh encoder; sibling block readers agree; stream length measured with position restored",
+ "C20": ("stream block buffer filled by a loop on the object's own stream (no per-block buffering adaptor), Interrupted retried; every transfer rewinds and builds a fresh encoder; sibling block readers agree; stream length measured with position restored",
          "E2 loop rule, must-pass-through, sibling dominance/argument rules",
          "equality of packet sequences for all chunkings is NOT decided"),
 }
